@@ -140,7 +140,7 @@ class IsotpDiscoverer(UDSDiscoveryScanner):
 
             await transport.sendto(pdu, timeout=0.1, dst=dst_addr)
             try:
-                addr, payload = await transport.recvfrom(timeout=0.1)
+                addr, payload = await transport.recvfrom(timeout=self.config.timeout)
                 if addr == ID:
                     logger.info(f"The same CAN ID {can_id_repr(ID)} answered. Skipping…")
                     continue
